@@ -248,6 +248,51 @@ fn source_info_case<const LEN: usize, const N: usize>() {
 #[kani::proof] #[kani::unwind(10)] fn source_info_6_2() { source_info_case::<6, 2>() }
 #[kani::proof] #[kani::unwind(10)] fn source_info_8_2() { source_info_case::<8, 2>() }
 
+/// C25 trimming: `line_span` / `read_line` = the line without surrounding whitespace (BOUNDED: ASCII text of LEN
+/// bytes, N newlines; bytes symbolic).  Reference: explicit scan for the ASCII white-space set of `char::is_whitespace`.
+fn is_ws(b: u8) -> bool { b == b' ' || (b >= 9 && b <= 13) }
+fn line_span_case<const LEN: usize, const N: usize>() {
+    let a: usize = kani::any();
+    if N >= 1 { kani::assume(a < LEN); }
+    let mut bytes = [b'x'; 4];
+    let mut i = 0;
+    while i < LEN {
+        let c: u8 = kani::any();
+        kani::assume(c < 0x80);
+        kani::assume((c == b'\n') == (N >= 1 && i == a));
+        bytes[i] = c;
+        i += 1;
+    }
+    let src = std::str::from_utf8(&bytes[..LEN]).unwrap().to_string();
+    let mut nl = Vec::with_capacity(2);
+    if N >= 1 { nl.push(a); }
+    nl.push(LEN);
+    let si = SourceInfo { src, nl_indices: nl };
+    let k: usize = kani::any();
+    kani::assume(k <= N);
+    let (rs, re) = if k == 0 { (0, if N >= 1 { a + 1 } else { LEN }) } else { (a + 1, LEN) };
+    // expected: skip white space from both ends of [rs, re)
+    let mut e = re;
+    let mut j = 0;
+    while j < LEN { if e > rs && is_ws(bytes[e - 1]) { e -= 1; } j += 1; }
+    let mut st = rs;
+    let mut j = 0;
+    while j < LEN { if st < e && is_ws(bytes[st]) { st += 1; } j += 1; }
+    kani::cover!(st > rs && e < re && st < e, "line with leading and trailing white space reachable");
+    match si.line_span(k) {
+        Some(r) => assert!(r.start == st && r.end == e, "C25.trim: the span of a line is that line without surrounding white space"),
+        None => assert!(false, "C25.trim: every existing line has a span"),
+    }
+    match si.read_line(k) {
+        Some(t) => assert!(t.len() == e - st && (t.is_empty() || (!is_ws(t.as_bytes()[0]) && !is_ws(t.as_bytes()[t.len() - 1]))), "C25.trim: the text of a line has no surrounding white space"),
+        None => assert!(false, "C25.trim: every existing line has text"),
+    }
+    assert!(si.line_span(N + 1).is_none() && si.read_line(N + 1).is_none(), "C25.trim: no line past the last one");
+}
+#[kani::proof] #[kani::unwind(8)] fn line_span_2_0() { line_span_case::<2, 0>() }
+#[kani::proof] #[kani::unwind(8)] fn line_span_3_1() { line_span_case::<3, 1>() }
+#[kani::proof] #[kani::unwind(8)] fn line_span_4_1() { line_span_case::<4, 1>() }
+
 // ---- C23: symbol-table queries (BOUNDED: one label with a one-letter name, query in either letter case) ---
 fn one_label_table(addr: u16, src_start: usize, external: bool) -> SymbolTable {
     let mut label_map = HashMap::new();
